@@ -20,6 +20,8 @@ iterations) and answers `Outcome.outOfFuel` when it runs out.  "The reader accep
 decided runs do not depend on the fuel (`C02_npda_fuel_monotone`, `C02_dpda_fuel_monotone`).
 -/
 import AutomataVerif.Proofs.PdaNpda
+import AutomataVerif.Proofs.PdaDpda
+import AutomataVerif.Proofs.PdaValidate
 
 namespace AV.Props.C02
 open AV AV.PDA
@@ -221,5 +223,198 @@ theorem C02_npda_accepts_input (M : NPDA σ α γ) (fuel : Nat) (w : List α) :
     cases hl : (M.readStepwise fuel w).1.getLast? with
     | none => exact absurd hl hne
     | some L => simp [acceptsInput, readInput, hout, hl]
+
+/-! ## Validation: the constructor accepts a DPDA definition exactly when no configuration
+can have two applicable moves
+
+`Table.WellFormed` (Spec/PDA.lean) lists the other rules of `PDA.validate`.
+`Table.KeysUnique` says that the association lists standing for Python dicts have unique
+keys (true of every dict). -/
+
+/-- `NPDA.validate` (the NPDA constructor) accepts exactly the well-formed definitions. -/
+theorem C02_npda_validate_iff (M : NPDA σ α γ) : M.validate = .ok () ↔ M.WellFormed :=
+  M.validate_eq_ok
+
+/-- `DPDA.validate` (the DPDA constructor) accepts a definition exactly when it is well formed
+and no state and stack top have both a symbol move and a λ-move. -/
+theorem C02_dpda_validate_iff (M : DPDA σ α γ) (hk : M.KeysUnique) :
+    M.validate = .ok () ↔ M.WellFormed ∧ ¬ M.TwoMoves := by
+  rw [M.validate_eq_ok_rows hk, M.detRows_iff hk]
+
+/-- The table-level condition is the property's wording: some configuration has two
+applicable moves, i.e. two different successor configurations. -/
+theorem C02_dpda_two_moves_iff (M : DPDA σ α γ) :
+    M.TwoMoves ↔ ∃ c c₁ c₂ : Config σ α γ, Step M.moves c c₁ ∧ Step M.moves c c₂ ∧ c₁ ≠ c₂ :=
+  M.twoMoves_iff
+
+/-- **A DPDA definition is accepted by the constructor exactly when no configuration can have
+two applicable moves** (given the rules that concern every PDA). -/
+theorem C02_dpda_constructor_iff (M : DPDA σ α γ) (hk : M.KeysUnique) (wf : M.WellFormed) :
+    M.validate = .ok () ↔
+      ¬ ∃ c c₁ c₂ : Config σ α γ, Step M.moves c c₁ ∧ Step M.moves c c₂ ∧ c₁ ≠ c₂ := by
+  rw [C02_dpda_validate_iff M hk, ← C02_dpda_two_moves_iff]
+  exact ⟨fun h => h.2, fun h => ⟨wf, h⟩⟩
+
+/-- On a well-formed definition the error is `NondeterminismError` exactly when some
+configuration has two applicable moves … -/
+theorem C02_dpda_nondeterminism_error_iff (M : DPDA σ α γ) (hk : M.KeysUnique) (wf : M.WellFormed) :
+    M.validate = .error (.lib .nondeterminismError) ↔ M.TwoMoves := by
+  constructor
+  · intro h
+    apply Classical.byContradiction
+    intro hno
+    exact M.validate_nondeterminism_rows hk h ((M.detRows_iff hk).mpr hno)
+  · intro h
+    exact M.validate_of_wf_not_det hk wf (fun hd => (M.detRows_iff hk).mp hd h)
+
+/-- … and for every table, valid or not, `NondeterminismError` is never raised without such a
+configuration (a malformed nondeterministic table may raise the error of an earlier check). -/
+theorem C02_dpda_nondeterminism_error_sound (M : DPDA σ α γ) (hk : M.KeysUnique)
+    (h : M.validate = .error (.lib .nondeterminismError)) :
+    ∃ c c₁ c₂ : Config σ α γ, Step M.moves c c₁ ∧ Step M.moves c c₂ ∧ c₁ ≠ c₂ := by
+  rw [← C02_dpda_two_moves_iff]
+  apply Classical.byContradiction
+  intro hno
+  exact M.validate_nondeterminism_rows hk h ((M.detRows_iff hk).mpr hno)
+
+/-! ## DPDA reader -/
+
+/-- The step-by-step reader of a DPDA, for every table (deterministic or not: `pick` is the
+order in which `set.pop()` returns a symbol move and a λ-move), mode, word and fuel.
+With `ys` the yielded configurations:
+(a) the first is the start configuration and each next one is one move after the previous
+    one — so the `k`-th is reachable in exactly `k` moves;
+(b) at least one and at most `fuel + 1` configurations are yielded;
+(c) every yielded configuration but the last is not accepting: the reader stops at the first
+    accepting configuration, **the start configuration included** (F7, fixed by 5e96321);
+(d) it returns iff the last yielded configuration is accepting;
+(e) it raises `RejectionException` iff the last one is not accepting and has no move;
+(f) it runs out of fuel iff it yielded `fuel + 1` configurations, the last not accepting;
+(g) it raises nothing else (the `IndexError` of `_get_next_configuration` is unreachable). -/
+theorem C02_dpda_stepwise (M : DPDA σ α γ) (m : AccMode) (hm : M.mode = m.literal)
+    (pick : Config σ α γ → Bool) (fuel : Nat) (w : List α) :
+    let ys := (M.readStepwise pick fuel w).1
+    let out := (M.readStepwise pick fuel w).2
+    let Acc := Accepting m M.finals
+    (ys[0]? = some (M.start w) ∧
+      (∀ k c c', ys[k]? = some c → ys[k + 1]? = some c' → Step M.moves c c') ∧
+      (∀ k c, ys[k]? = some c → StepN M.moves k (M.start w) c)) ∧
+    (1 ≤ ys.length ∧ ys.length ≤ fuel + 1) ∧
+    (∀ k c, ys[k]? = some c → k + 1 < ys.length → ¬ Acc c) ∧
+    (out = .returned ↔ ∃ c, ys.getLast? = some c ∧ Acc c) ∧
+    (out = .raised (.lib .rejectionException) ↔
+      ys.length ≤ fuel ∧ ∃ c, ys.getLast? = some c ∧ ¬ Acc c ∧ ¬ ∃ c', Step M.moves c c') ∧
+    (out = .outOfFuel ↔ ys.length = fuel + 1 ∧ ∃ c, ys.getLast? = some c ∧ ¬ Acc c) ∧
+    (∀ e, out = .raised e → e = .lib .rejectionException) := by
+  intro ys out Acc
+  have S := M.readStepwise_spec pick fuel w
+  have hacc : ∀ c, M.hasAccepted c = true ↔ Acc c := fun c => hasAccepted_iff M m hm c
+  have hnacc : ∀ c, M.hasAccepted c = false ↔ ¬ Acc c := fun c => by
+    rw [← hacc c]; cases M.hasAccepted c <;> simp
+  refine ⟨⟨S.head, S.chain, S.level⟩, ⟨S.lenPos, S.len⟩, ?_, ?_, ?_, ?_, S.onlyRej⟩
+  · intro k c hc hk; exact (hnacc c).mp (S.before k c hc hk)
+  · rw [show (out = Outcome.returned) = ((M.readStepwise pick fuel w).2 = .returned) from rfl, S.returned]
+    simp only [hacc]; rfl
+  · rw [show (out = Outcome.raised (.lib .rejectionException)) =
+      ((M.readStepwise pick fuel w).2 = .raised (.lib .rejectionException)) from rfl, S.rejected]
+    simp only [hnacc]; rfl
+  · rw [show (out = Outcome.outOfFuel) = ((M.readStepwise pick fuel w).2 = .outOfFuel) from rfl, S.fuelOut]
+    simp only [hnacc]; rfl
+
+/-- A deterministic DPDA accepts exactly when an accepting configuration is reachable (the
+start configuration included) … -/
+theorem C02_dpda_accept_iff (M : DPDA σ α γ) (hdet : ¬ M.TwoMoves) (m : AccMode) (hm : M.mode = m.literal)
+    (pick : Config σ α γ → Bool) (w : List α) :
+    (∃ fuel, (M.readStepwise pick fuel w).2 = .returned) ↔
+      ∃ k c, StepN M.moves k (M.start w) c ∧ Accepting m M.finals c := by
+  rw [M.returned_iff hdet pick w]
+  simp only [hasAccepted_iff M m hm]
+
+/-- … and rejects exactly when its run dies out and no reachable configuration is accepting. -/
+theorem C02_dpda_reject_iff (M : DPDA σ α γ) (hdet : ¬ M.TwoMoves) (m : AccMode) (hm : M.mode = m.literal)
+    (pick : Config σ α γ → Bool) (w : List α) :
+    (∃ fuel, (M.readStepwise pick fuel w).2 = .raised (.lib .rejectionException)) ↔
+      (∃ k, ∀ c, ¬ StepN M.moves k (M.start w) c) ∧
+      ¬ ∃ k c, StepN M.moves k (M.start w) c ∧ Accepting m M.finals c := by
+  rw [M.rejected_iff hdet pick w]
+  simp only [hasAccepted_iff M m hm]
+
+/-- Fuel only matters for undecided runs. -/
+theorem C02_dpda_fuel_monotone (M : DPDA σ α γ) (pick : Config σ α γ → Bool) (fuel fuel' : Nat)
+    (w : List α) (h : (M.readStepwise pick fuel w).2 ≠ .outOfFuel) (hle : fuel ≤ fuel') :
+    M.readStepwise pick fuel' w = M.readStepwise pick fuel w :=
+  M.readStepwise_mono pick fuel fuel' w h hle
+
+/-- On a deterministic table the order in which the set of candidate transitions is popped
+is irrelevant: the reader is a function of the definition and the word. -/
+theorem C02_dpda_pick_irrelevant (M : DPDA σ α γ) (hdet : ¬ M.TwoMoves)
+    (pick pick' : Config σ α γ → Bool) (fuel : Nat) (w : List α) :
+    M.readStepwise pick fuel w = M.readStepwise pick' fuel w := by
+  unfold DPDA.readStepwise
+  simp only [M.loop_pick hdet pick pick']
+
+/-! ## DPDA = NPDA with the same transition table -/
+
+/-- `DPDA.lift` is "the NPDA with the same transition table": same move relation (each
+entry `(p, push)` becomes the set `{(p, push)}`), same start, finals and mode. -/
+theorem C02_lift_same_table (M : DPDA σ α γ) :
+    (∀ q a X p push, M.lift.moves q a X p push ↔ M.moves q a X p push) ∧
+    (∀ w, M.lift.start w = M.start w) ∧ M.lift.finals = M.finals ∧ M.lift.mode = M.mode ∧
+    (∀ q a X, M.lift.entry? q a X = (M.entry? q a X).map fun e => [e]) :=
+  ⟨M.lift_moves, fun _ => rfl, rfl, rfl, M.lift_entry?⟩
+
+/-- **On every string a (deterministic) DPDA gives the same verdict as the NPDA with the same
+transition table**: one accepts iff the other does, one rejects iff the other does.
+This is false of the code before `fix:` 5e96321 (F7), where the DPDA did not test the start
+configuration before taking an available λ-move. -/
+theorem C02_dpda_eq_npda (M : DPDA σ α γ) (hdet : ¬ M.TwoMoves) (m : AccMode) (hm : M.mode = m.literal)
+    (pick : Config σ α γ → Bool) (w : List α) :
+    ((∃ fuel, (M.readStepwise pick fuel w).2 = .returned) ↔
+      (∃ fuel, (M.lift.readStepwise fuel w).2 = .returned)) ∧
+    ((∃ fuel, (M.readStepwise pick fuel w).2 = .raised (.lib .rejectionException)) ↔
+      (∃ fuel, (M.lift.readStepwise fuel w).2 = .raised (.lib .rejectionException))) := by
+  have hm' : M.lift.mode = m.literal := hm
+  constructor
+  · rw [C02_dpda_accept_iff M hdet m hm pick w, C02_npda_accept_iff M.lift m hm' w]
+    simp only [DPDA.lift_stepN]; rfl
+  · rw [C02_dpda_reject_iff M hdet m hm pick w, C02_npda_reject_iff M.lift m hm' w]
+    simp only [DPDA.lift_stepN]; rfl
+
+/-- The same in terms of `accepts_input` at arbitrary fuels: whenever both runs are decided,
+the two Booleans are equal, and neither call raises. -/
+theorem C02_dpda_eq_npda_decided (M : DPDA σ α γ) (hdet : ¬ M.TwoMoves) (m : AccMode)
+    (hm : M.mode = m.literal) (pick : Config σ α γ → Bool) (w : List α) (f f' : Nat)
+    (hd : (M.readStepwise pick f w).2 ≠ .outOfFuel) (hn : (M.lift.readStepwise f' w).2 ≠ .outOfFuel) :
+    ∃ b, acceptsInput (M.readStepwise pick f w) = some (.ok b) ∧
+      acceptsInput (M.lift.readStepwise f' w) = some (.ok b) := by
+  obtain ⟨hacc, hrej⟩ := C02_dpda_eq_npda M hdet m hm pick w
+  have SD := M.readStepwise_spec pick f w
+  have SN := C02_npda_accepts_input M.lift f' w
+  have hlastD : (M.readStepwise pick f w).1.getLast? ≠ none := by
+    intro h; have := SD.lenPos; rw [List.getLast?_eq_none_iff] at h; rw [h] at this; simp at this
+  -- verdict of the DPDA run
+  cases hD : (M.readStepwise pick f w).2 with
+  | outOfFuel => exact absurd hD hd
+  | returned =>
+    refine ⟨true, ?_, ?_⟩
+    · cases hl : (M.readStepwise pick f w).1.getLast? with
+      | none => exact absurd hl hlastD
+      | some c => simp [acceptsInput, readInput, hD, hl]
+    · obtain ⟨f₂, h₂⟩ := hacc.mp ⟨f, hD⟩
+      -- the NPDA run at fuel f' is decided, hence equal to the run at max f' f₂
+      have e1 := C02_npda_fuel_monotone M.lift f' (max f' f₂) w hn (Nat.le_max_left _ _)
+      have e2 := C02_npda_fuel_monotone M.lift f₂ (max f' f₂) w (by rw [h₂]; simp) (Nat.le_max_right _ _)
+      have : (M.lift.readStepwise f' w).2 = .returned := by
+        rw [← e1, e2]; exact h₂
+      exact SN.1.mpr this
+  | raised e =>
+    obtain rfl := SD.onlyRej e hD
+    refine ⟨false, by simp [acceptsInput, readInput, hD], ?_⟩
+    obtain ⟨f₂, h₂⟩ := hrej.mp ⟨f, hD⟩
+    have e1 := C02_npda_fuel_monotone M.lift f' (max f' f₂) w hn (Nat.le_max_left _ _)
+    have e2 := C02_npda_fuel_monotone M.lift f₂ (max f' f₂) w (by rw [h₂]; simp) (Nat.le_max_right _ _)
+    have : (M.lift.readStepwise f' w).2 = .raised (.lib .rejectionException) := by
+      rw [← e1, e2]; exact h₂
+    exact SN.2.1.mpr this
 
 end AV.Props.C02
